@@ -1,83 +1,33 @@
 # Per-property configuration of ./check: Lean theorem module, harness stages, claimed level.
-# kind "corr" = correspondence (model vs code); kind "search" = property search on the real API.
+# kind "corr" = correspondence (model / generated function vs real code);
+# kind "search" = property search on the real API judged by the Lean oracle.
+
+def S(name, kind="search", **kw):
+    d = {"name": name, "kind": kind}
+    d.update(kw)
+    return d
+
+GEN = S("gen-corr", "corr")
+MOD = S("models-corr", "corr")
 
 PROPS = {
- "C01": {
-  "level": "other",
-  "lean_module": None,
-  "stages": [{"name": "c01-search", "kind": "search"}],
-  "explanation": "",
- },
- "C02": {
-  "level": "other",
-  "lean_module": None,
-  "stages": [{"name": "c02-search", "kind": "search"}],
-  "explanation": "",
- },
- "C03": {
-  "level": "other",
-  "lean_module": None,
-  "stages": [{"name": "c03-search", "kind": "search"}],
-  "explanation": "",
- },
- "C06": {
-  "level": "other",
-  "lean_module": None,
-  "stages": [{"name": "c06-search", "kind": "search"}],
-  "explanation": "",
- },
- "C04": {
-  "level": "other",
-  "lean_module": None,
-  "stages": [{"name": "c04-search", "kind": "search"}],
-  "explanation": "",
- },
- "C07": {
-  "level": "other",
-  "lean_module": None,
-  "stages": [{"name": "c07-search", "kind": "search"}],
-  "explanation": "",
- },
- "C08": {
-  "level": "other",
-  "lean_module": None,
-  "stages": [{"name": "c08-search", "kind": "search"}],
-  "explanation": "",
- },
- "C17": {
-  "level": "other",
-  "lean_module": None,
-  "stages": [{"name": "c17-search", "kind": "search"}],
-  "explanation": "",
- },
- "C19": {
-  "level": "other",
-  "lean_module": None,
-  "stages": [{"name": "c19-search", "kind": "search"}],
-  "explanation": "",
- },
- "C09": {
-  "level": "other",
-  "lean_module": None,
-  "stages": [{"name": "c09-search", "kind": "search"}],
-  "explanation": "",
- },
- "C11": {
-  "level": "other",
-  "lean_module": None,
-  "stages": [{"name": "c11-search", "kind": "search"}],
-  "explanation": "",
- },
- "C12": {
-  "level": "other",
-  "lean_module": None,
-  "stages": [{"name": "c12-search", "kind": "search"}],
-  "explanation": "",
- },
- "C14": {
-  "level": "proof",
-  "lean_module": "ClipVerif.Props.C14",
-  "stages": [{"name": "c14-search", "kind": "search"}],
-  "explanation": "",
- },
+ "C01": {"level": "other", "lean_module": "ClipVerif.Props.C01", "stages": [GEN, S("c01-search")]},
+ "C02": {"level": "other", "lean_module": "ClipVerif.Props.C02", "stages": [S("c02-search")]},
+ "C03": {"level": "other", "lean_module": "ClipVerif.Props.C03", "stages": [MOD, S("c03-search")]},
+ "C04": {"level": "other", "lean_module": "ClipVerif.Props.C04", "stages": [MOD, S("c04-search")]},
+ "C05": {"level": "other", "lean_module": "ClipVerif.Props.C05", "stages": [MOD, S("c05-search")]},
+ "C06": {"level": "other", "lean_module": "ClipVerif.Props.C06", "stages": [GEN, S("c06-search")]},
+ "C07": {"level": "other", "lean_module": "ClipVerif.Props.C07", "stages": [GEN, S("c07-search")]},
+ "C08": {"level": "other", "lean_module": "ClipVerif.Props.C08", "stages": [MOD, S("c08-search")]},
+ "C09": {"level": "other", "lean_module": "ClipVerif.Props.C09", "stages": [GEN, S("c09-search")]},
+ "C10": {"level": "other", "lean_module": "ClipVerif.Props.C10", "stages": [S("c10-search")]},
+ "C11": {"level": "other", "lean_module": "ClipVerif.Props.C11", "stages": [GEN, S("c11-search")]},
+ "C12": {"level": "other", "lean_module": "ClipVerif.Props.C12", "stages": [S("c12-search")]},
+ "C13": {"level": "other", "lean_module": "ClipVerif.Props.C13", "stages": [GEN, S("c13-search")]},
+ "C14": {"level": "proof", "lean_module": "ClipVerif.Props.C14", "stages": [GEN, MOD, S("c14-search")]},
+ "C15": {"level": "proof", "lean_module": "ClipVerif.Props.C15", "stages": [GEN, MOD, S("c15-search")]},
+ "C16": {"level": "proof", "lean_module": "ClipVerif.Props.C16", "stages": [GEN, MOD, S("c16-search")]},
+ "C17": {"level": "other", "lean_module": "ClipVerif.Props.C17", "stages": [S("c17-search")]},
+ "C18": {"level": "other", "lean_module": "ClipVerif.Props.C18", "stages": [S("c18-hammer", binary="hx-race")]},
+ "C19": {"level": "other", "lean_module": "ClipVerif.Props.C19", "stages": [GEN, S("c19-search")]},
 }
